@@ -69,6 +69,7 @@ type c04Time struct {
 	K   string `json:"k"`           // absent int float exp str null bool
 	Off int64  `json:"o,omitempty"` // seconds relative to "now" at the time the token is built
 	Ms  int    `json:"ms,omitempty"` // float: milliseconds added
+	Lit string `json:"lit,omitempty"` // abs: the JSON number literal itself (absolute seconds)
 }
 
 type c04Claim struct {
@@ -85,6 +86,7 @@ type c04Tok struct {
 	Nbf    c04Time    `json:"nbf"`
 	Iat    c04Time    `json:"iat"`
 	Custom []c04Claim `json:"c,omitempty"`
+	Many   int        `json:"many,omitempty"` // additional claims m0..m<Many-1>
 	PL     string     `json:"pl,omitempty"`  // "" object built from the claims; null array string trunc
 	Mut    string     `json:"mut,omitempty"` // post-signing mutation
 	Pos    int        `json:"pos,omitempty"`
@@ -115,6 +117,8 @@ func c04TimeLiteral(t c04Time, now time.Time) (string, bool) {
 	switch t.K {
 	case "absent", "":
 		return "", false
+	case "abs":
+		return t.Lit, true
 	case "int":
 		return strconv.FormatInt(sec, 10), true
 	case "float":
@@ -147,7 +151,10 @@ func c04Payload(tk c04Tok, now time.Time) string {
 		return `"claims"`
 	}
 	var parts []string
-	add := func(k, lit string) { parts = append(parts, strconv.Quote(k)+":"+lit) }
+	add := func(k, lit string) {
+		q, _ := json.Marshal(k) // JSON quoting (control characters as \u00XX)
+		parts = append(parts, string(q)+":"+lit)
+	}
 	if l, ok := c04TimeLiteral(tk.Exp, now); ok {
 		add("exp", l)
 	}
@@ -158,13 +165,26 @@ func c04Payload(tk c04Tok, now time.Time) string {
 		add("iat", l)
 	}
 	for _, c := range tk.Custom {
-		add(c.K, c.V)
+		add(c.K, c04ClaimLiteral(c.V))
+	}
+	for i := 0; i < tk.Many; i++ {
+		add("m"+strconv.Itoa(i), strconv.Itoa(i))
 	}
 	s := "{" + strings.Join(parts, ",") + "}"
 	if tk.PL == "trunc" {
 		return s[:len(s)-1]
 	}
 	return s
+}
+
+// c04ClaimLiteral expands "#str:N" into a JSON string of N characters (so that a
+// case stays small), everything else is a raw JSON literal.
+func c04ClaimLiteral(v string) string {
+	if strings.HasPrefix(v, "#str:") {
+		n, _ := strconv.Atoi(v[5:])
+		return `"` + strings.Repeat("z", n) + `"`
+	}
+	return v
 }
 
 func c04Header(tk c04Tok) string {
@@ -287,6 +307,11 @@ func c04TimeClaim(v any, present bool, kind string, now time.Time) c04Exp {
 	if !ok {
 		return c04Reject
 	}
+	if lim := new(big.Rat).SetInt(new(big.Int).Lsh(big.NewInt(1), 60)); new(big.Rat).Abs(r).Cmp(lim) >= 0 {
+		// |seconds| >= 2^60: beyond what a time.Time / int64 second count represents;
+		// the statement does not say what such a NumericDate means
+		return c04Unspec
+	}
 	nowR := new(big.Rat).SetFrac(big.NewInt(now.UnixNano()), big.NewInt(1e9))
 	floor := func(x *big.Rat) *big.Int {
 		q := new(big.Int)
@@ -377,7 +402,7 @@ func c04VerifyJWT(tok string, keys [][]byte, now time.Time) (c04Exp, map[string]
 		}
 	}
 	if res == c04Unspec {
-		return res, nil, "time-subsecond"
+		return res, nil, "time-subsecond-or-huge"
 	}
 	return c04Accept, claims, "ok"
 }
@@ -565,6 +590,8 @@ type c04SigReq struct {
 	Query  string `json:"q,omitempty"`
 	Body   string `json:"b,omitempty"` // plaintext body
 	Big    int    `json:"big,omitempty"` // >0: the body is Body repeated up to Big bytes
+	PLen   int    `json:"plen,omitempty"` // >0: a final path segment of PLen characters is appended
+	QLen   int    `json:"qlen,omitempty"` // >0: a query parameter with a value of QLen characters is appended
 	ReqURI bool   `json:"ru,omitempty"`
 	RURel  bool   `json:"rurel,omitempty"` // X-Request-Uri is a relative reference (no scheme/host)
 	Fr     string `json:"fr,omitempty"`    // framing: "" exact Content-Length, "chunked" length -1 + non-nil body, "nobody" http.NoBody (empty bodies only)
@@ -682,12 +709,28 @@ func c04SecretPlain(ver bool, ctype int, key []byte, ts string) string {
 
 // c04Sign renders a correctly signed request with timestamp ts.
 func c04Sign(r c04SigReq, ts int64) c04Wire {
+	return c04SignStr(r, strconv.FormatInt(ts, 10))
+}
+
+// c04SignStr signs with the timestamp spelled tss.
+func c04SignStr(r c04SigReq, tss string) c04Wire {
+	if r.PLen > 0 {
+		if !strings.HasSuffix(r.Path, "/") {
+			r.Path += "/"
+		}
+		r.Path += strings.Repeat("p", r.PLen)
+	}
+	if r.QLen > 0 {
+		if r.Query != "" {
+			r.Query += "&"
+		}
+		r.Query += "long=" + strings.Repeat("v", r.QLen)
+	}
 	key := c04AesKey(r.KeySd, r.KeyLen)
 	body := r.plainBody()
 	if r.CType == 1 && len(body) > 0 {
 		body = []byte(base64.StdEncoding.EncodeToString(c04EcbEncrypt(key, body)))
 	}
-	tss := strconv.FormatInt(ts, 10)
 	w := c04Wire{Method: r.Method, Path: r.Path, Query: r.Query, ReqURI: r.ReqURI, Body: body,
 		Fingerprint: r.Fp, EncKey: r.Fp, URLPath: r.Path, URLQuery: r.Query, RURel: r.RURel, Framing: r.Fr}
 	if r.ReqURI {
@@ -927,16 +970,19 @@ func c04Tamper(w c04Wire, r c04SigReq, ts int64, kind string, arg int) (c04Wire,
 // c04Tolerance: is timestamp ts inside the tolerance at instant now? Two
 // readings (real line / whole seconds); UNSPECIFIED where they disagree.
 func c04Tolerance(ts int64, now time.Time, tol time.Duration) c04Exp {
-	diff := time.Duration(ts)*time.Second - time.Duration(now.UnixNano())
-	if diff < 0 {
-		diff = -diff
-	}
-	realOK := diff <= tol
-	d := ts - now.Unix()
-	if d < 0 {
-		d = -d
-	}
-	secOK := d <= int64(tol/time.Second)
+	return c04ToleranceBig(big.NewInt(ts), now, tol)
+}
+
+// c04ToleranceBig does the same for a timestamp of any magnitude.
+func c04ToleranceBig(ts *big.Int, now time.Time, tol time.Duration) c04Exp {
+	e9 := big.NewInt(1e9)
+	diff := new(big.Int).Mul(ts, e9)
+	diff.Sub(diff, big.NewInt(now.UnixNano()))
+	diff.Abs(diff)
+	realOK := diff.Cmp(big.NewInt(int64(tol))) <= 0
+	d := new(big.Int).Sub(ts, big.NewInt(now.Unix()))
+	d.Abs(d)
+	secOK := d.Cmp(big.NewInt(int64(tol/time.Second))) <= 0
 	if realOK != secOK {
 		return c04Unspec
 	}
